@@ -199,7 +199,10 @@ func (s *nilSer) instr(instr ir.Instruction) []string {
 	case *ir.Convert:
 		k("Convert")
 		intop := false
-		if b, ok := v.X.Type().Underlying().(*types.Basic); ok && b.Info()&types.IsInteger != 0 && typeutil.IsPointerLike(v.Type()) {
+		if typeutil.IsPointerLike(v.Type()) && typeutil.Any(v.X.Type(), func(term *types.Term) bool {
+			b, ok := term.Type().Underlying().(*types.Basic)
+			return ok && b.Info()&types.IsInteger != 0
+		}) {
 			intop = true
 			k("Convert-int-to-pointer")
 		}
@@ -384,6 +387,12 @@ func (s *nilSer) instr(instr ir.Instruction) []string {
 				return []string{fmt.Sprintf("IExtractTS %d %d (TSDefault %s)", s.id(v), s.id(tuple.Tag), cb(hasNil))}
 			}
 			typ := tuple.Conds[idx]
+			if !types.Identical(v.Type(), typ) {
+				// clause with several types: the bound variable is the switched-over value itself
+				b, ok := typ.(*types.Basic)
+				k("Extract-TypeSwitch-multi")
+				return []string{fmt.Sprintf("IExtractTS %d %d (TSMulti %s)", s.id(v), s.id(tuple.Tag), cb(ok && b.Kind() == types.UntypedNil))}
+			}
 			toiface := types.IsInterface(typ) && !typeparams.IsTypeParam(typ)
 			k("Extract-TypeSwitch-case")
 			return []string{fmt.Sprintf("IExtractTS %d %d (TSCase %s)", s.id(v), s.id(tuple.Tag), cb(toiface))}
